@@ -149,7 +149,17 @@ func errRefused() error {
 	return &net.OpError{Op: "dial", Net: "tcp", Err: syscall.ECONNREFUSED}
 }
 
+var sqlPickN atomic.Uint64
+
 func registerDriver() {
+	sql.VerifPick = func(n int) int {
+		k := sqlPickN.Add(1)
+		seed := ""
+		if theSim != nil {
+			seed = theSim.seedS
+		}
+		return int(hashStr(seed, "sqlpick", fmt.Sprint(k)) % uint64(n))
+	}
 	for _, d := range sql.Drivers() {
 		if d == "mysql" {
 			return
